@@ -77,8 +77,8 @@ _FUNCTION_PROPERTY = {
 
 # functions a property reads although they are listed with another one (a function can matter to several properties)
 EXTRA_FUNCTIONS = {
-    "C02": ["SideState.__setattr__", "SyncManager.make_temp_file", "SyncManager.download_changed", "SyncManager.upload_synced"],
-    "C03": ["SyncState.change"],
+    "C02": ["SmartCloudSync._sync_one_entry", "SmartCloudSync._smart_unsync_ent", "SideState.__setattr__", "SyncManager.make_temp_file", "SyncManager.download_changed", "SyncManager.upload_synced"],
+    "C03": ["SyncState.change", "SyncState.unconditionally_get_latest", "SyncManager.sync"],
     "C04": ["SyncState._change_oid", "SyncEntry.is_deletion", "SyncEntry.is_creation", "SyncState.update", "SyncManager._get_parent_conflict", "SyncManager._get_child_conflict"],
     "C05": ["SyncManager.make_temp_file", "SyncManager.download_changed"],
     "C16": ["Provider.is_subpath", "Provider.replace_path"],
@@ -92,8 +92,9 @@ EXTRA_FUNCTIONS = {
     "C12": ["EventManager._process_event", "SyncManager.embrace_change"],
     "C13": ["CloudSync.translate", "Provider.is_subpath_of_root"],
     "C14": ["SyncManager._handle_dir_delete_not_empty", "EventManager.queue", "SyncManager.do", "Provider._walk", "Provider.walk", "Provider.walk_oid", "EventManager._do_walk_if_needed"],
-    "C15": ["CloudSync.forget", "SyncManager.do", "EventManager._do_unsafe", "SyncState.changes"],
-    "C20": ["SmartSyncState._changeset"],
+    "C08": ["SqliteStorage.delete", "SqliteStorage.update", "SqliteStorage.create", "SqliteStorage.read_all", "EventManager._process_event"],
+    "C15": ["CloudSync.forget", "SyncManager.do", "EventManager._do_unsafe", "SyncState.changes", "NotificationManager.__init__", "NotificationManager.notify"],
+    "C20": ["SmartSyncState._changeset", "SyncManager._sync_one_entry", "SyncManager.sync", "SyncManager.pre_sync"],
 }
 
 
@@ -715,6 +716,9 @@ def function_shapes(ctx: Ctx, spec: str):
            ["kw%d=%s" % (i, ast.unparse(d)) for i, (k, d) in enumerate(zip(a_.kwonlyargs, a_.kw_defaults)) if d is not None]
     if dflt:
         vals["<defaults>"] = dflt
+    decs = [ast.unparse(d) for d in f.node.decorator_list]
+    if decs:
+        vals["<decorators>"] = decs        # `@lock`, `@strict`, `@property`: a dropped decorator changes every call of the function
     its = []
     for lp in [x for x in ctx.own_nodes(f) if isinstance(x, (ast.For, ast.AsyncFor))]:
         # only loops over shared state (`self.<...>`): whether they walk the live collection or a snapshot of it (`tuple(self._queue)`) is the point
@@ -963,6 +967,9 @@ def decision_table(ctx: Ctx, rep: Report, rid: str, functions=None, shapes: str 
                 bad = []
                 for sh, old_vals in sorted(values_old["values"].items()):
                     cur_vals = now.get(sh)
+                    if sh == "<decorators>" and sorted(cur_vals or []) != sorted(old_vals):
+                        bad.append((sh, [v for v in old_vals if v not in (cur_vals or [])], [v for v in (cur_vals or []) if v not in old_vals]))
+                        continue
                     if cur_vals is None or len(cur_vals) != len(old_vals):
                         continue        # the sites of this shape were merged / split / moved: not comparable value by value
                     if any(("DEF(" in v and " | " in v) or "<?>" in v or "ELEM" in v or "DEF('in" in v or 'DEF("in' in v for v in list(cur_vals) + list(old_vals)):
